@@ -173,3 +173,20 @@ CLAIMED["C14"] = dict(
   note=("Trusted: as C07/C01; HashSrc abstracts hash(): equal sources give equal hashes. Partial: sorted(); hash of Datetime/Naming/Storage for all objects; "
         "comparison of groups of different shapes (NotImplemented protocol) are validated, not proved."),
   design="§6 C14")
+
+CLAIMED["C15"] = dict(
+  technique="Lean 4 proof: invariant by induction over call histories of a store-of-dictionaries model (no dictionary of a class is ever in the caller's hands), instantiated with aliasing facts probed on the real code by the translator; kernel-evaluated acceptance/rejection instances",
+  text=("Theorems: C15_frozen_parse / C15_frozen_render - for EVERY call history (creating mappings and classes, asking for values()/formatter()/regex() dictionaries, "
+        "setting and deleting keys of any dictionary the caller holds, at any point and in any order) and every constant class existing at some point, what the class accepts and "
+        "renders after the history is what it accepted and rendered at that point (invariant Inv + extension relation Ext, step_frozen / run_frozen by induction); "
+        "C15_created - a new class accepts and renders from one and the same snapshot of its source mapping; C15_inv_reachable - the invariant holds on every reachable "
+        "state. The theorems are about the model instantiated with C15_flags: the four aliasing facts (dict2const copies; values(), formatter(), regex() hand out copies) "
+        "that the translator probes on /repo's code on every run - a change that shares a dictionary flips a flag, the proof no longer checks and the history sweep "
+        "searches the real code for a failing history. C15_instances / C15_to_const_serial / C15_history_instance - kernel-evaluated: one text per directive, other "
+        "texts rejected with FormatterValueError, to_const of an instance, a concrete mutation history. 'Exactly the frozen text for every mapping and every "
+        "text' and to_const for the five formatters and for groups (every subset of members) are decided by the sweep (snapshot oracle) and the correspondence "
+        "(const.history runs whole histories through model and code)."),
+  note=("Trusted: as C01; the four probes in extract.py (extensional: they mutate what the real code hands out and observe). Partial: acceptance of exactly the frozen text "
+        "for ALL texts is validated, not proved (it needs the literal-matching lemma on the generated pattern). Two defects repaired in /repo: regex() handed out the "
+        "cached dictionary itself; dict2const kept the caller's mapping."),
+  design="§6 C15")
